@@ -49,3 +49,6 @@ Definition pow_neg1 {T} (K : ops T) (n : Z) : T := if Z.even n then o1 K else on
    are injected by binary digits (olitz / ofpos of Gen/Prelude.v), so that factorials do not build unary numerals.
    Floating-point rounding of the quotient is not modelled (project convention). *)
 Definition oratio {T} (K : ops T) (q : ratio) : T := odiv K (olitz K (Qnum q)) (ofpos K (Qden q)).
+
+(* ---- list slots that hold None or a float (type optfloat = option T): arithmetic on None raises TypeError ---- *)
+Definition py_unopt {A} (o : option A) : gres A := match o with Some x => GOk x | None => GErr TypeError end.
